@@ -60,6 +60,9 @@ pub struct Stats {
     pub c: Counters,
     pub digests: BTreeSet<u64>,
     pub samples: Vec<Json>,
+    /// digest of everything observable about the current run (event
+    /// histories, results, interleavings); logged per run for the determinism batches
+    pub run_acc: u64,
 }
 
 impl Stats {
@@ -68,6 +71,13 @@ impl Stats {
     }
     pub fn add(&mut self, k: &str, n: u64) {
         self.c.add(k, n);
+    }
+    /// Fold something observable into the current run's digest.
+    pub fn fold(&mut self, v: u64) {
+        self.run_acc = crate::mix(self.run_acc, v);
+    }
+    pub fn fold_str(&mut self, s: &str) {
+        self.fold(crate::fnv64(s.as_bytes()));
     }
     pub fn nontrivial(&mut self, digest: u64) {
         self.digests.insert(digest);
@@ -82,6 +92,7 @@ impl Stats {
             "c": self.c.to_json(),
             "digests": self.digests.iter().map(|d| crate::hex(*d)).collect::<Vec<_>>(),
             "samples": self.samples,
+            "run_acc": crate::hex(self.run_acc),
         })
     }
     pub fn merge_json(&mut self, j: &Json, max_samples: usize) {
